@@ -611,6 +611,11 @@ class Randomizer(RandIF):
                 randomize_done(srcinfo, solve_info)
             for fm in field_model_l:
                 ConstraintOverrideRollbackVisitor.rollback(fm)
+            # Make sure no field keeps a handle into this call's solver 
+            # instances, whatever way the solve ended
+            for rs in ri.randsets():
+                for f in rs.all_fields():
+                    f.dispose()
 
         visited = [] 
         for fm in field_model_l:
